@@ -30,4 +30,41 @@ var propSpecs = []propSpec{
 		assume:  []string{"patterns are well-formed"},
 		stubs:   stdStubs,
 	},
+	{
+		id: "C02",
+		runs: []runSpec{
+			{dir: "mux", entry: "ZZC02",
+				quick:    []int{1718508, 466008, 2371808, 2733308, 3464008, 2060008, 3828308, 4719308, 3001308, 5410308, 391808, 366308, 1038508, 653008, 4558408, 413908},
+				thorough: []int{1718510, 466010, 2371810, 2733310, 3464010, 2060010, 3828310, 4719310, 3001310, 5410310, 391810, 366310, 1038510, 653010, 4558410, 413910}},
+		},
+		covers:  []string{"404", "matched", "matched-with-params"},
+		bounds:  "request path: every byte string of length <= 8; 16 add-only route tables (8 selections of 3-4 patterns from a 15-pattern pool plus a 6-literal-sibling bundle, each in two registration orders); reference = a resolver over the pattern strings that never builds a tree and returns the set of admissible outcomes",
+		boundsT: "as quick, request path length <= 10",
+		outside: "longer paths; other tables; regexp rules whose alphabet overlaps the first byte of the literal that follows them; user-defined interceptors; paths \"\" and \"*\"",
+		assume:  []string{"patterns are well-formed", "method GET only (method handling is C01/C03/C08)"},
+		stubs:   stdStubs,
+	},
+	{
+		id: "C03",
+		runs: []runSpec{
+			{dir: "mux", entry: "ZZC03", quick: []int{14, 24, 114, 124, 214, 224, 314, 324}, thorough: []int{15, 25, 35, 115, 125, 135, 215, 225, 235, 315, 325, 335}},
+		},
+		covers:  []string{"history", "non-interference-checked"},
+		bounds:  "4 scenarios (six literal siblings + parameter sibling; five top-level routes not starting with '/'; parameters with several methods; interceptor/regexp/named at one position), every history of <= 2 operations from an 8-9 operation alphabet (Handle, Remove(pattern), Remove(pattern, methods), Clean, Prefix.Clean, Resource.Clean) after the scenario's setup; after the last step: Routes() vs model, witness requests of every pattern x 5 methods, and the same symbolic request (path <= 4 bytes, 5 methods) before and after the step",
+		boundsT: "as quick with histories of <= 3 operations and symbolic paths <= 5 bytes",
+		outside: "longer histories, other pattern pools, paths longer than the bound",
+		assume:  []string{"the non-interference clause is asserted for every request that was dispatched to a route the step does not name"},
+		stubs:   stdStubs,
+	},
+	{
+		id: "C04",
+		runs: []runSpec{
+			{dir: "mux", entry: "ZZC04", quick: []int{1, 2, 3, 101, 102, 103, 1001, 1002, 1003, 1101, 1102, 1103}, thorough: []int{1, 2, 3, 4, 101, 102, 103, 104, 1001, 1002, 1003, 1004, 1101, 1102, 1103, 1104}, mapRev: true},
+		},
+		covers:  []string{"history", "options-allow", "405-allow"},
+		bounds:  "2 operation alphabets of 10 operations (registrations that split nodes after methods were registered, removal of all / of single / of never-registered methods, Clean, Prefix.Clean, Any), every history of <= 3 operations, with and without WithTrace, both map iteration orders; after the last step, for every live pattern: Allow of OPTIONS and of 405 (read through the node captured by the builder), Node().Methods()/AllowHeader(), Routes(), for every request reaching the route (parameter values symbolic, <= 2 bytes); OPTIONS * on every state including the brand-new router",
+		boundsT: "as quick with histories of <= 4 operations",
+		outside: "longer histories, other pattern pools",
+		stubs:   stdStubs,
+	},
 }
